@@ -66,7 +66,7 @@ func instrumentCImpl(fset *token.FileSet, f *ast.File, rel string) error {
 
 func addImport(f *ast.File, path, name string) {
 	for _, imp := range f.Imports {
-		if p, _ := strconv.Unquote(imp.Path.Value); p == path {
+		if p, _ := strconv.Unquote(imp.Path.Value); p == path && imp.Name != nil && imp.Name.Name == name {
 			return
 		}
 	}
